@@ -201,8 +201,8 @@ def skip_unit(ctx, src):
 
 
 CONTEXT_LOOP = """
-__CPROVER_assigns(z, last_start, char_is_escaped, verif_exc, ret->size, paren_stack.size, paren_stack.top, g_pstart, g_plen, g_nstart, g_depth, g_nops, g_kdepth, g_size0, g_cnt0, g_ls0, g_lastop, g_lastval, g_c, g_top0, g_esc0)
-__CPROVER_loop_invariant(verif_exc == 0 && z <= s->size && last_start <= z && ret->size <= last_start && g_depth == paren_stack.size)
+__CPROVER_assigns(z, last_start, char_is_escaped, verif_exc, ret->size, paren_stack.size, paren_stack.top, g_pstart, g_plen, g_nstart, g_depth, g_nops, g_kdepth, g_size0, g_cnt0, g_ls0, g_lastop, g_lastval, g_c, g_top0, g_esc0, g_nconsumed)
+__CPROVER_loop_invariant(verif_exc == 0 && z <= s->size && last_start <= z && ret->size <= last_start && g_depth == paren_stack.size && g_nconsumed == z)
 __CPROVER_loop_invariant(ret->size == 0 ==> last_start == 0)
 __CPROVER_loop_invariant(max_splits != 0 ==> ret->size <= max_splits)
 __CPROVER_loop_invariant(g_pj < ret->size ==> (g_pstart <= s->size && g_plen < s->size - g_pstart && g_pstart + g_plen < last_start))
@@ -220,7 +220,7 @@ def context_unit(ctx, src):
     u = Unit(ctx, 'context')
     u.raw('#include "contracts/C08_context.h"\n')
     u.function(src, CC, r'vector<string> split_context\(const string& s, char delim, size_t max_splits\)',
-               new_header='void split_context(vvec* ret, const vstr* s, char delim, size_t max_splits)', ret_zero='',
+               new_header='void split_context(vvec* ret, const vstr* s, char delim, size_t max_splits)', ret_zero='', body_prefix=' g_nconsumed = 0; ',
                rules=[L('vector<string> ret;', ''), L('vector<char> paren_stack;', 'cstack paren_stack; c8_stk_init(&paren_stack);'),
                       SIZES[0], R(r'\bret\.size\(\)', 'ret->size', '+'), R(r'\bs\[([^\]]+)\]', r's->data[\1]', '+'),
                       R(r'\bparen_stack\.empty\(\)', '(paren_stack.size == 0)', '+'), R(r'\bparen_stack\.size\(\)', 'paren_stack.size', '+'),
